@@ -96,6 +96,14 @@ def lint_cell_hash_eq():
         src = rsx.Source(path)
     except OSError as e:
         return ['src/stack.rs unreadable: %s' % e]
+    # the assumed clone() of StackObjectRef is the derived one (an Rc clone: the same cell, hence the same kind)
+    try:
+        attrs = rsx.item_attrs(src, 'struct', 'StackObjectRef')
+        ders = set(x.strip() for d in re.findall(r'#\[derive\(([^)]*)\)\]', attrs) for x in d.split(','))
+        if 'Clone' not in ders:
+            bad.append('struct StackObjectRef no longer derives Clone (the cell model assumes the derived Rc clone)')
+    except Exception as e:  # noqa: BLE001
+        bad.append('struct StackObjectRef not found: %s' % e)
     for tr in ('Hash', 'PartialEq'):
         spans = list(src.impl_blocks(r'impl %s for StackObjectRef' % tr))
         if len(spans) != 1:
